@@ -11,12 +11,13 @@ import SageoptModel.Drv.Wiring
 import SageoptModel.Drv.Relax
 import SageoptModel.Drv.Poly
 import SageoptModel.Drv.Solrec
+import SageoptModel.Drv.Domain
 open Lean
 
 namespace Sageopt.Drv
 
 def allHandlers : List (String × Handler) :=
-  GF2.handlers ++ Solvers.handlers ++ Sig.handlers ++ SigL.handlers ++ SigCalc.handlers ++ Compile.handlers ++ Sage.handlers ++ Vars.handlers ++ Glue.handlers ++ Wiring.handlers ++ Relax.handlers ++ Poly.handlers ++ Solrec.handlers
+  GF2.handlers ++ Solvers.handlers ++ Sig.handlers ++ SigL.handlers ++ SigCalc.handlers ++ Compile.handlers ++ Sage.handlers ++ Vars.handlers ++ Glue.handlers ++ Wiring.handlers ++ Relax.handlers ++ Poly.handlers ++ Solrec.handlers ++ Domain.handlers
 
 def dispatch (line : String) : String :=
   match Json.parse line with
